@@ -171,6 +171,28 @@ def rule_name_spelling(ck, facts):
         else:
             ck.bad(R, key, "%s classifies a token's text with `%s`: every identifier with that spelling property is treated specially (e.g. any `let` name beginning with `_` becomes a placeholder and binds nothing), so renaming a variable changes the program" % (f.short, bad[1]), f.where(bad[0]))
     ck.floor(R, "lowering_functions_reading_token_text", n, 5)
+    # the same for the stages that handle names as symbols after the lowering: the macro-stage combinators rebuild
+    # binders from their names (`_` alone is the placeholder), the staging translation passes names on as strings
+    m = 0
+    for f in lang.fns:
+        if not any(x in f.path for x in ("::plugin::codegen_combinators", "::compiler::translate_staging")) or f.kind == "promoted" or "::test" in f.path:
+            continue
+        seeds = [t[6][0] for _, t in f.calls() if (callee(t) or "").split("::")[-1] == "as_str" and "Symbol" in (callee(t) or "") and t[6] is not None]
+        if not seeds:
+            continue
+        m += 1
+        T = taint(f, seeds)
+        bad = None
+        for b, t in f.calls():
+            c = callee(t) or ""
+            if c.split("::")[-1] in CLASS and ("str" in c or "String" in c) and t[5] and t[5][0][0] in ("cp", "mv") and t[5][0][1][0] in T:
+                bad = (t, c.split("::")[-1])
+        key = "symbol|%s" % f.short.split("::", 2)[-1]
+        if bad is None:
+            ck.ok(R, key)
+        else:
+            ck.bad(R, key, "%s classifies a name with `%s`: every binder with that spelling property is treated as the placeholder (e.g. a tuple binder `_a` in quoted code is dropped from the generated `let`, and its uses resolve to a variable of the same name at the use site), so renaming a binder changes the program" % (f.short, bad[1]), f.where(bad[0]))
+    ck.floor(R, "staging_functions_reading_names", m, 3)
 
 
 def rule_linebreak_uniform(ck, facts):
@@ -325,7 +347,24 @@ def rule_block_scope(ck, facts):
                     restores.append(nm)
         n += 1
         key = "block|%s" % want.replace(" ", "-")
-        if restores:
+        # the restoration is unconditional with respect to the body: no branch on the discriminant of an Expr
+        # (the shape of the block's body) may decide whether it happens
+        from ..cfg import DefIndex, dominators
+        dom = dominators(f)
+        di = DefIndex(f)
+        shape_guard = None
+        for b, t in f.calls():
+            if b not in region or (callee(t) or "").split("::")[-1] not in ("to_outer", "truncate", "pop_front", "pop", "pop_scope", "split_off", "clear"):
+                continue
+            for d in dom.get(b, ()):
+                if d == b or d not in region or f.term(d)[KIND] != "switch" or f.term(d)[4][0] not in ("cp", "mv"):
+                    continue
+                r = di.resolve(f.term(d)[4])
+                if r[0] == "rv" and r[1][5][0] == "disc" and r[1][5][2].endswith("ast::Expr"):
+                    shape_guard = t
+        if restores and shape_guard is not None:
+            ck.bad(R, key, "%s takes the block's bindings back only for some shapes of the body (the restoring call is under a test of the body's Expr variant): a block whose first statement is an expression (`{ f(x)  let y = 0.5  .. }`, a `Then` chain) keeps its `let` in the enclosing environment" % f.short, f.where(shape_guard))
+        elif restores:
             ck.ok(R, key, {"walk": f.short, "restores_with": sorted(set(restores))})
         else:
             ck.bad(R, key, "%s (the %s's walk over Expr) evaluates the body of a block and never takes back the bindings the body added (no to_outer / truncate / pop in the Block arm): `let x = 1.0  let y = { let x = 2.0  x }  x + y` gives 4.0, and 3.0 once the inner binder is renamed" % (f.short, want), f.where(f.term(tb)))
